@@ -277,6 +277,9 @@ func (fc *FnCtx) lockOp(fr *Frame, st *State, reach string, op string, mu Val, c
 
 // ownedGhost: the ownership ghost guarding objects of this type, if any.
 func (fc *FnCtx) ownedGhost(t types.Type) string {
+	if isPointer(t) {
+		return "" // a variable HOLDING a pointer to an owned object is not itself owned
+	}
 	if n := namedOf(t); n != nil && n.Obj().Pkg() != nil {
 		return fc.eng.owned[n.Obj().Pkg().Path()+"."+n.Obj().Name()]
 	}
